@@ -242,7 +242,84 @@ func hasInteresting(v interface{}) bool {
 func bodyCase(stream string, g gwcfg, in bodyIn, r *rng.R, gzipped bool, status int, chunkMode int) {
 	s := bodyScript(g, in, r, gzipped, status, chunkMode)
 	progress(buildBody(stream, g, in, s, crashReply, gzipped, status), "")
-	emitBody(stream, g, in, s, wd.call(g, s), gzipped, status)
+	rep := wd.call(g, s)
+	if g.oe != "string" && rep.status == 200 && rep.err == "" {
+		collectLits(rep.body, g.router)
+	}
+	emitBody(stream, g, in, s, rep, gzipped, status)
+}
+
+// ---- literals: the byte-level model of encoding/json (Model go_escape / go_unquote /
+// scan_number) is validated against what the real encoder wrote and the real decoder read ----
+type litPair struct{ raw, val, from string }
+
+var (
+	outLits  []litPair // string literals found in gateway replies: text between the quotes, Go's decoding of it
+	outSeen  = map[string]bool{}
+	numLits  []litPair // number literals found in gateway replies: text, the bytes that follow
+	numSeen  = map[string]bool{}
+	srcLits  []litPair // string literals written by the generator's serialiser: text, the intended value
+	srcSeen  = map[string]bool{}
+	litLimit = 350
+)
+
+func collectLits(b []byte, from string) {
+	for i := 0; i < len(b); {
+		c := b[i]
+		switch {
+		case c == '"':
+			j := i + 1
+			for j < len(b) && b[j] != '"' {
+				if b[j] == '\\' {
+					j++
+				}
+				j++
+			}
+			if j >= len(b) {
+				return
+			}
+			raw := string(b[i+1 : j])
+			var v string
+			if len(raw) <= 400 && !outSeen[raw] && len(outLits) < litLimit && json.Unmarshal(b[i:j+1], &v) == nil {
+				outSeen[raw] = true
+				outLits = append(outLits, litPair{raw, v, from})
+			}
+			i = j + 1
+		case c == '-' || (c >= '0' && c <= '9'):
+			j := i
+			for j < len(b) && strings.IndexByte("0123456789+-.eE", b[j]) >= 0 {
+				j++
+			}
+			k := j + 6
+			if k > len(b) {
+				k = len(b)
+			}
+			key := string(b[i:k])
+			if !numSeen[key] && len(numLits) < litLimit {
+				numSeen[key] = true
+				numLits = append(numLits, litPair{string(b[i:j]), string(b[j:k]), from})
+			}
+			i = j
+		default:
+			i++
+		}
+	}
+}
+
+func emitLits() {
+	add := func(kind, ctor string, ps []litPair) {
+		for _, p := range ps {
+			term := emit.App(ctor, emit.Str(p.raw), emit.Str(p.val))
+			js := map[string]interface{}{"stream": "literals", "kind": kind, "text": fmt.Sprintf("%q", p.raw), "value_or_rest": fmt.Sprintf("%q", p.val), "router": p.from,
+				"observed": "the text is what the real encoding/json wrote (gateway reply) or read (backend reply); the models go_escape / go_unquote / scan_number are evaluated on it"}
+			w.Count("stream:literals")
+			w.Count("literal:" + kind)
+			w.Add(term, js, "", "L|"+kind+"|"+p.raw+"|"+p.val, true)
+		}
+	}
+	add("reply-string", "CLit", outLits)
+	add("reply-number", "CNumLit", numLits)
+	add("backend-string", "CSrcLit", srcLits)
 }
 
 // the backend reply for a body case
@@ -652,6 +729,7 @@ func main() {
 	mul := 1
 	if thorough {
 		mul = 12
+		litLimit = 2500
 	}
 	routers := []string{"Gin", "Mux"}
 
@@ -1071,6 +1149,7 @@ func main() {
 		}
 	}
 
+	emitLits()
 	os.Remove(filepath.Join(cfg.Dir, "progress.json"))
 	w.Meta["backend_calls"] = wd.calls.Load()
 	w.Close("regression corpus (22 documents: 40 tricky number literals, escaped/astral strings, reserved keys, empty containers; F-C13 input) x sensible configurations x gin/mux x concurrent_calls 1..3; exhaustive scope: 2 routers x 3 encodings x is_collection x 3 output encodings x cc 1..3 x 6 kinds of document, and every listed status x router for no-op; random documents (own serialiser: random whitespace, escape styles, member order, chunking, gzip, 200/201), nesting depth 1..64, string bodies (binary, format verbs), no-op bodies 0 B..512 KiB around the 4 KiB/32 KiB/64 KiB buffer sizes in flushed chunks with 8 header sets and 28 statuses; malformed bodies; nontrivial = number literal not reproducible through float64, non-ASCII/escaped text, depth >= 8, gzip, cc > 1, multi-chunk or > 32 KiB no-op body", true)
